@@ -3,6 +3,7 @@
 package xrh
 
 import (
+	admv1 "k8s.io/api/admissionregistration/v1"
 	"context"
 	"fmt"
 	"sort"
@@ -50,6 +51,7 @@ var Scheme = func() *runtime.Scheme {
 	must(appsv1.AddToScheme(s))
 	must(rbacv1.AddToScheme(s))
 	must(extv1.AddToScheme(s))
+	must(admv1.AddToScheme(s))
 	must(apis.AddToScheme(s))
 	return s
 }()
